@@ -42,6 +42,11 @@ P = {
         note="Outlier-model flags are oracle inputs; the join on (postal_code, unit id) is modelled for feeds whose ids keep one state.",
         tech="Coq proof (keyed-list lemmas: first-occurrence dedup, filters under unique ids) + exhaustive decision-table enumeration + differential correspondence",
         ref="DESIGN.md section 5 C09"),
+    "C20": dict(
+        text="Generated facts (both fit calls of fit_model, the except tuple, the warnings filter, the installed solver's signature) re-derived at every run and decided by computation: the retry is accepted by the signature and gives every parameter the first attempt's argument except normalize_weights=False. Control-flow theorems for every solver behaviour: caught failure -> result of the un-normalised solve; a fault at any position leaves every other fit untouched. Fault enumeration: every fit position x both failure kinds, run completes with the fault-free tables.",
+        note="Solver is an oracle (faults injected by wrapping QuantileRegressionSolver.fit); equality of tables at 1e-6 relative.",
+        tech="Coq: computation on translator-generated call shapes + control-flow theorems; exhaustive fault enumeration against get_estimates",
+        ref="DESIGN.md section 5 C20"),
 }
 
 REASON_NOT_BUILT = "check not built yet in this development stage (planned: see DESIGN.md section 5)"
